@@ -13,6 +13,7 @@ import (
 	"math"
 	"math/rand"
 	"sort"
+	"strconv"
 	"strings"
 	"time"
 
@@ -158,13 +159,17 @@ func (g *nbtGen) num(bits uint) uint64 {
 func (g *nbtGen) float(bits uint) uint64 {
 	r := g.r
 	if bits == 32 {
-		specials := []uint32{0, 0x80000000, 0x7f800000, 0xff800000, 0x7fc00000, 0x7fc00001, 0xffc12345, 0x7f800001, 0x3f800000, 0x00000001, 0x7f7fffff}
+		// ±0, ±Inf, quiet NaNs with payload, SIGNALLING NaNs (quiet bit clear), 1.0, subnormals, the largest finite
+		specials := []uint32{0, 0x80000000, 0x7f800000, 0xff800000, 0x7fc00000, 0x7fc00001, 0xffc12345, 0x7f800001, 0x7fa00000,
+			0xff800001, 0x7fbfffff, 0xffbfffff, 0x3f800000, 0x00000001, 0x80000001, 0x007fffff, 0x7f7fffff}
 		if r.Intn(2) == 0 {
 			return uint64(specials[r.Intn(len(specials))])
 		}
 		return uint64(r.Uint32())
 	}
-	specials := []uint64{0, 0x8000000000000000, 0x7ff0000000000000, 0xfff0000000000000, 0x7ff8000000000000, 0x7ff8000000000001, 0xfff8123456789abc, 0x7ff0000000000001, 0x3ff0000000000000, 1, 0x7fefffffffffffff}
+	specials := []uint64{0, 0x8000000000000000, 0x7ff0000000000000, 0xfff0000000000000, 0x7ff8000000000000, 0x7ff8000000000001, 0xfff8123456789abc,
+		0x7ff0000000000001, 0x7ff4000000000000, 0xfff0000000000001, 0x7ff7ffffffffffff, 0xfff7ffffffffffff, 0x3ff0000000000000, 1,
+		0x8000000000000001, 0x000fffffffffffff, 0x7fefffffffffffff}
 	if r.Intn(2) == 0 {
 		return specials[r.Intn(len(specials))]
 	}
@@ -216,6 +221,80 @@ func (g *nbtGen) key(prev [][]byte) []byte {
 	default:
 		return g.bytesOf(g.strLen() % 600) // arbitrary bytes, not UTF-8
 	}
+}
+
+// Element counts around the block sizes an implementation might read, copy or allocate with: n-1, n, n+1 for the
+// powers of two from 32 to 8192, and a few sizes in between. The executable models re-flatten the source at every
+// read (a case costs time quadratic in its size), so the sizes above 1025 are drawn rarely on the quick tier.
+var nbtSmallSizes = []int{31, 32, 33, 63, 64, 65, 127, 128, 129, 255, 256, 257, 511, 512, 513, 1023, 1024, 1025}
+var nbtMidSizes = []int{1025, 1500, 2047, 2048, 2049, 3000}
+var nbtBigSizes = []int{4095, 4096, 4097, 5000, 8191, 8192, 8193}
+
+// nbtBoundarySizes: the sizes a cheap case may take (kept for the callers that index it: 12 small ones first).
+var nbtBoundarySizes = []int{63, 64, 65, 127, 128, 129, 255, 256, 257, 1023, 1024, 1025, 2047, 2049, 4097}
+
+// nbtSizes: the element counts one kind of container is generated with in a run: 65, 129 and 1025 always, `extra`
+// more from the small and middle sizes, and — if large — one big size (thorough: three, and for a quarter of the callers 20000).
+func nbtSizes(c *Ctx, extra int, large bool) []int {
+	out := []int{65, 129, 1025}
+	for i := 0; i < extra; i++ {
+		if c.R.Intn(6) == 0 {
+			out = append(out, nbtMidSizes[c.R.Intn(len(nbtMidSizes))])
+		} else {
+			out = append(out, nbtSmallSizes[c.R.Intn(len(nbtSmallSizes))])
+		}
+	}
+	if large {
+		if c.Thorough() || c.R.Intn(5) == 0 {
+			out = append(out, nbtBigSizes[c.R.Intn(len(nbtBigSizes))])
+		} else {
+			out = append(out, nbtBigSizes[c.R.Intn(4)]) // the executable models are quadratic: 8191.. at one run in five
+		}
+		if c.Thorough() {
+			out = append(out, nbtBigSizes[c.R.Intn(len(nbtBigSizes))], nbtBigSizes[c.R.Intn(len(nbtBigSizes))])
+			if c.R.Intn(4) == 0 {
+				out = append(out, 20000) // 20..40 s for the models: a quarter of the container kinds of a run
+			}
+		}
+	}
+	return out
+}
+
+// bigNode: a container with exactly n elements — a byte / int / long array (7, 11, 12), a string of n bytes (8),
+// a list of n elements of tag elem (9; nested elements stay small), a compound of n entries (10).
+func (g *nbtGen) bigNode(tag, elem byte, n int) *nbtNode {
+	nd := &nbtNode{tag: tag}
+	switch tag {
+	case 7, 8:
+		nd.data = g.bytesOf(n)
+	case 11:
+		for i := 0; i < n; i++ {
+			nd.ints = append(nd.ints, uint32(g.num(32)))
+		}
+	case 12:
+		for i := 0; i < n; i++ {
+			nd.longs = append(nd.longs, g.num(64))
+		}
+	case 9:
+		nd.elem = elem
+		for i := 0; i < n; i++ {
+			if elem == 8 && n > 300 && i%16 != 0 {
+				nd.list = append(nd.list, &nbtNode{tag: 8, data: g.bytesOf(g.r.Intn(4))}) // long lists of strings: mostly short ones
+			} else {
+				nd.list = append(nd.list, g.tree(elem, 0))
+			}
+		}
+	case 10:
+		for i := 0; i < n; i++ {
+			nd.keys = append(nd.keys, []byte("k"+strconv.Itoa(i)))
+			if n > 300 && i%8 != 0 {
+				nd.vals = append(nd.vals, g.tree(byte(1+g.r.Intn(6)), 0)) // long compounds: mostly numbers, to keep the case small
+			} else {
+				nd.vals = append(nd.vals, g.tree(0, 0))
+			}
+		}
+	}
+	return nd
 }
 
 func (g *nbtGen) count() int {
